@@ -1,35 +1,131 @@
 #!/usr/bin/env python3
-"""tools/seed_sweep.py [ids...] — regression sweep over the recorded seeded changes: apply each patch to /repo,
-run the checks that caught it when it was recorded (or the property's own quick check), revert.  Prints one line
-per seed; exit 1 if a seed that used to be caught is no longer caught by any of its checks.  /repo must be clean.
---record: write caught_by into the meta.json of a seed that was recorded as missed and is caught now."""
-import json, os, subprocess, sys, glob
+"""tools/seed_sweep.py [--record] [--jobs N] [--subset] [ids...] — regression sweep over the recorded seeded changes:
+apply each patch to the library tree, run the checks that caught it when it was recorded (or the property's own
+quick check), revert.  Prints one line per seed; exit 1 if a seed that used to be caught is no longer caught by any
+of its checks.  The library tree must be clean.
+
+Library tree: `VERIF_REPO` when set (a scratch copy, as tools/seeded.py and ./check take it), /repo otherwise.
+--jobs N   N workers side by side.  A seeded change rewrites the library tree AND the regenerated Lean files of the
+           framework (Gen/*.lean, the model driver when a fact it links changed), so two seeds can never share either:
+           every worker gets private copies  build/sweep/w<k>/verif  (this framework, .lake included) and
+           build/sweep/w<k>/repo  (the library tree at its current content, as a one-commit git repository of its
+           own so that `git checkout -- .` reverts), both removed at the end.  The library tree itself is not touched.
+--subset   every seed whose meta.json has `caught_after_strengthening` plus every fifth of the others (sorted ids).
+--record   write caught_by into the meta.json of a seed that was recorded as missed and is caught now.
+--out F    also write one JSON line per seed to F (id, property, checks, caught, wall_s, first VIOLATION lines).
+"""
+import json, os, shutil, subprocess, sys, glob, threading, time
 V = os.path.dirname(os.path.dirname(os.path.abspath(__file__)))
-def sh(c): return subprocess.run(c, shell=True, stdout=subprocess.PIPE, stderr=subprocess.STDOUT, text=True)
-assert sh("git -C /repo status --porcelain").stdout.strip() == "", "/repo not clean"
-RECORD = "--record" in sys.argv
-args = [a for a in sys.argv[1:] if a != "--record"]
-ids = args or sorted(os.path.basename(d) for d in glob.glob(V + "/seeded/*") if os.path.isdir(d))
-bad = 0
-for sid in ids:
+REPO = os.environ.get("VERIF_REPO", "/repo")
+GOENV = dict(os.environ, GOFLAGS="-mod=mod", GOPROXY="off", GOSUMDB="off", GOTOOLCHAIN="local")
+
+
+def sh(c, env=None):
+    return subprocess.run(c, shell=True, stdout=subprocess.PIPE, stderr=subprocess.STDOUT, text=True, errors="replace", env=env or GOENV)
+
+
+def all_ids():
+    return sorted(os.path.basename(d) for d in glob.glob(V + "/seeded/*") if os.path.isdir(d))
+
+
+def subset():
+    ids = all_ids()
+    st = [i for i in ids if "caught_after_strengthening" in json.load(open(f"{V}/seeded/{i}/meta.json"))]
+    rest = [i for i in ids if i not in st]
+    return sorted(st + rest[::5])
+
+
+def one(sid, v, repo, record):
+    """apply seed `sid` to `repo`, run its checks with framework `v`, revert; returns the result record"""
     d = os.path.join(V, "seeded", sid)
     meta = json.load(open(d + "/meta.json"))
     checks = meta.get("caught_by") or [meta["property"] + " quick"]
     checks = list(dict.fromkeys(checks))[:2]
-    if sh(f"git -C /repo apply {d}/patch.diff").returncode != 0:
-        print(f"{sid}: PATCH DOES NOT APPLY"); bad += 1; continue
-    caught = []
+    rec = {"id": sid, "property": meta["property"], "checks": checks, "caught": [], "lines": []}
+    t0 = time.time()
+    if sh(f"git -C {repo} apply {d}/patch.diff").returncode != 0:
+        rec["error"] = "PATCH DOES NOT APPLY"; return rec
     try:
         for c in checks:
-            r = sh(f"cd {V} && ./check {c}")
-            if r.returncode == 1 and "VIOLATION property=" in r.stdout:
-                caught.append(c + (" (no-failing-input-found)" if all(l.rstrip().endswith("no-failing-input-found") for l in r.stdout.splitlines() if l.startswith("VIOLATION")) else ""))
+            r = sh(f"cd {v} && timeout 2400 ./check {c}", env=dict(GOENV, VERIF_REPO=repo))
+            vl = [l for l in r.stdout.splitlines() if l.startswith("VIOLATION")]
+            if r.returncode == 1 and vl:
+                rec["caught"].append(c + (" (no-failing-input-found)" if all(l.rstrip().endswith("no-failing-input-found") for l in vl) else ""))
+                rec["lines"] = vl[:3]
+                m = vl[0].split("replay=")[1].split()[0]
+                if os.path.exists(m): rec["what"] = "".join(open(m).readlines()[1:3])[:400]
                 break
+            rec["lines"] = [l for l in r.stdout.splitlines() if l.startswith(("OK ", "note:"))][:3] or [r.stdout[-300:]]
     finally:
-        sh("git -C /repo checkout -- .")
-    if RECORD and caught and not meta.get("caught_by"):   # a seed first missed, caught after the machinery was strengthened
-        meta["caught_by"] = [c.split(" (")[0] for c in caught]; meta["caught_after_strengthening"] = caught
+        sh(f"git -C {repo} checkout -- . && git -C {repo} clean -fdq")
+    rec["wall_s"] = round(time.time() - t0, 1)
+    if record and rec["caught"] and not meta.get("caught_by"):   # a seed first missed, caught after the machinery was strengthened
+        meta["caught_by"] = [c.split(" (")[0] for c in rec["caught"]]; meta["caught_after_strengthening"] = rec["caught"]
         json.dump(meta, open(d + "/meta.json", "w"), indent=1)
-    print(f"{sid}: {'caught by ' + ', '.join(caught) if caught else 'NOT CAUGHT by ' + ', '.join(checks)}", flush=True)
-    if not caught: bad += 1
-sys.exit(1 if bad else 0)
+    return rec
+
+
+def make_worker_copies(k):
+    base = os.path.join(V, "build", "sweep", f"w{k}")
+    shutil.rmtree(base, ignore_errors=True)
+    os.makedirs(base)
+    v, repo = os.path.join(base, "verif"), os.path.join(base, "repo")
+    os.makedirs(v)
+    for e in os.listdir(V):
+        if e in (".git", "build", "replay", "evidence", "seeded", "audit"): continue
+        r = sh(f"cp -a {os.path.join(V, e)} {v}/")
+        assert r.returncode == 0, r.stdout
+    os.makedirs(repo)
+    r = sh(f"cd {REPO} && git ls-files -z | xargs -0 cp -a --parents -t {repo} && cd {repo} && git init -q . && git add -A && "
+           "git -c user.name=sweep -c user.email=sweep@localhost commit -qm base")
+    assert r.returncode == 0, r.stdout
+    return v, repo
+
+
+def main():
+    a = sys.argv[1:]
+    record, jobs, out, ids, sub = False, 1, None, [], False
+    while a:
+        x = a.pop(0)
+        if x == "--record": record = True
+        elif x == "--jobs": jobs = int(a.pop(0))
+        elif x == "--out": out = a.pop(0)
+        elif x == "--subset": sub = True
+        else: ids.append(x)
+    assert sh(f"git -C {REPO} status --porcelain").stdout.strip() == "", REPO + " not clean"
+    ids = ids or (subset() if sub else all_ids())
+    lock, results = threading.Lock(), []
+
+    def report(rec):
+        with lock:
+            results.append(rec)
+            if out: open(out, "a").write(json.dumps(rec) + "\n")
+            if rec.get("error"): print(f"{rec['id']}: {rec['error']}", flush=True)
+            else:
+                print(f"{rec['id']}: {'caught by ' + ', '.join(rec['caught']) if rec['caught'] else 'NOT CAUGHT by ' + ', '.join(rec['checks'])} ({rec['wall_s']}s)", flush=True)
+
+    if jobs <= 1:
+        for sid in ids: report(one(sid, V, REPO, record))
+    else:
+        queue = list(ids)
+
+        def worker(k):
+            v, repo = make_worker_copies(k)
+            try:
+                while True:
+                    with lock:
+                        if not queue: return
+                        sid = queue.pop(0)
+                    report(one(sid, v, repo, record))
+            finally:
+                shutil.rmtree(os.path.dirname(v), ignore_errors=True)
+        ths = [threading.Thread(target=worker, args=(k,)) for k in range(jobs)]
+        for t in ths: t.start()
+        for t in ths: t.join()
+    bad = [r for r in results if not r["caught"]]
+    print(f"{len(results)} seeds, {len(bad)} not caught")
+    return 1 if bad else 0
+
+
+if __name__ == "__main__":
+    sys.exit(main())
